@@ -3344,11 +3344,15 @@ def breakout_starred_args(source: str) -> str:
     # One element is unique, more than 1 may not be.
     # So, a 1-length set can safely be unpacked, but not a 2-length set.
     starred_arg_template = ast.Starred(value=(ast.List, ast.Tuple, ast.Set(elts=[object])))
+    # {*a} is a set display with one element node, but it stands for any number of elements
+    starred_set_unpack_template = ast.Starred(value=ast.Set(elts=[ast.Starred]))
     for node in core.walk(root, ast.Call):
         matched = False
         args = []
         for arg in node.args:
-            if core.match_template(arg, starred_arg_template):
+            if core.match_template(arg, starred_arg_template) and not core.match_template(
+                arg, starred_set_unpack_template
+            ):
                 args.extend(arg.value.elts)
                 matched = True
             else:
